@@ -78,8 +78,10 @@ let rec split_prefix (p : n list) (l : n list) : n list option =
   | a :: p', b :: l' -> if a = b then split_prefix p' l' else None
   | _ :: _, [] -> None
 
-let n_i32_max = n_of_hex "7fffffff"
-let n_le (a : n) (b : n) : bool = int_of_n a <= int_of_n b   (* values < 2^62 only *)
+(* v <= i32::MAX, for v of any size: compare the hexadecimal spellings *)
+let n_le_i32_max (v : n) : bool =
+  let h = hex_of_n v in
+  String.length h < 8 || (String.length h = 8 && h <= "7fffffff")
 
 let spec_of (kind : string) (text : n list) (ann : string) : string =
   match split_on ':' ann with
@@ -95,7 +97,7 @@ let spec_of (kind : string) (text : n list) (ann : string) : string =
      | Some ds' ->
        let ds = strip_seps ds' in
        if valid_digits r ds then
-         (if List.length ds <= 12 && n_le (radix_value r ds) n_i32_max then "I:" ^ hex_of_n (radix_value r ds) else "OUT")
+         (if n_le_i32_max (radix_value r ds) then "I:" ^ hex_of_n (radix_value r ds) else "OUT")
        else "MISMATCH"
      | None -> "MISMATCH")
   | ["dec"; v] ->
